@@ -1,13 +1,269 @@
 /-
-  C12 — every strftime specifier renders the documented field (stage 1: models + correspondence;
-  the property theorems are added in the following stages).
--/
-import Chrono.Model.Strftime
-import Chrono.Model.Format
-namespace Chrono.Props.C12
-open Chrono Chrono.M Chrono.M.Strftime
+  C12 — every strftime specifier renders the documented field.
 
-/-- `%F` is `%Y-%m-%d` item for item (placeholder obligation of stage 1) -/
-theorem composite_F : items [37, 70] = items [37, 89, 45, 37, 109, 45, 37, 100] := by decide
+  Property statements only.  Models: Model/Strftime.lean (`StrftimeItems`), Model/Format.lean
+  (`DelayedFormat::write_to` …).  Specification: Spec/StrftimeSpec.lean (`renderNumeric`,
+  `renderFixed`, `renderOffset`: the documentation table over the independent calendar of
+  Spec/Calendar.lean; numerals are core's `Nat.toDigits 10`).  Lemmas: Proofs/FormatL.lean,
+  Proofs/FormatFin.lean, Proofs/FormatIsoL.lean (ISO week), Proofs/StrftimeL.lean (iterator progress).
+  Not proved here, only compared and oracle-checked on the implementation: `%+`/RFC 3339 and RFC 2822
+  text (see props/C12.json).  A date is `dateOfYo y o` (the `o`-th day of year `y`) as in C01, a time any
+  `TValid` value (leap-second representation allowed on any second), an offset any `|off| < 86400`.
+
+  `wok text` = the text was written; `werr` = `Err(fmt::Error)`.
+-/
+import Chrono.Proofs.FormatL
+import Chrono.Proofs.StrftimeL
+import Chrono.Proofs.FormatIsoL
+import Chrono.Extracted.SpecTable
+
+namespace Chrono.Props.C12
+open Chrono Chrono.M Chrono.M.Format Chrono.M.Strftime Chrono.Spec Chrono.Spec.Strftime Chrono.Extracted
+open Chrono.Proofs
+
+/-! ### the specifier table is the one in the source -/
+
+/-- the model's letter → item table, `z` arm, padding modifiers and composite slices are exactly what
+the translator reads from strftime.rs on this run (every byte value, so also: no other letter has an
+arm) -/
+theorem spec_table_ok :
+    (∀ c < 256, specTable c = match SPEC_TABLE.lookup c with | some (it :: q) => some (it, q) | _ => none) ∧
+    SPEC_Z = [(true, zItem true), (false, zItem false)] ∧
+    SPEC_COLON = [([58, 58, 122], fixed .timezoneOffsetTripleColon), ([58, 122], fixed .timezoneOffsetDoubleColon),
+                  ([122], fixed .timezoneOffsetColon)] ∧
+    SPEC_DOT = [(51, fixed .nanosecond3), (54, fixed .nanosecond6), (57, fixed .nanosecond9), (102, fixed .nanosecond)] ∧
+    SPEC_FRAC = [(51, fixed .nanosecond3NoDot), (54, fixed .nanosecond6NoDot), (57, fixed .nanosecond9NoDot)] ∧
+    (∀ c < 256, padOf c = SPEC_PAD.lookup c) ∧ SPEC_ALTERNATES = [122] ∧
+    SPEC_SLICES.map (·.2) = [D_FMT, D_T_FMT, T_FMT, T_FMT_AMPM] := by decide +kernel
+
+/-- every specifier of the documentation table is accepted (no `Item::Error`), and the padding
+modifiers `-`, `0`, `_` in front of a numeric specifier replace its padding and nothing else -/
+theorem documented_accepted :
+    (∀ s ∈ documented, Item.error ∉ items (37 :: str s)) ∧
+    (∀ c < 256, ∀ n p, items [37, c] = [Item.numeric n p] →
+      items [37, 45, c] = [Item.numeric n .none] ∧ items [37, 48, c] = [Item.numeric n .zero] ∧
+      items [37, 95, c] = [Item.numeric n .space]) := by
+  constructor
+  · decide
+  · intro c hc n p h
+    have key : ∀ c < 256, ∀ n ∈ Numeric.all, ∀ p ∈ [Pad.none, Pad.zero, Pad.space],
+        items [37, c] = [Item.numeric n p] →
+        items [37, 45, c] = [Item.numeric n .none] ∧ items [37, 48, c] = [Item.numeric n .zero] ∧
+        items [37, 95, c] = [Item.numeric n .space] := by decide +kernel
+    exact key c hc n (by cases n <;> decide) p (FormatL.pad_mem p) h
+
+/-! ### numeric specifiers -/
+
+/-- `%Y %C %y %q %m %d %w %u %j` (with any padding modifier) show the documented calendar field of
+every date: sign and width rule of `%Y`, floor division for `%C`, `%y` for years ≥ 0.  The `as u8`
+narrowings lose nothing because month ≤ 12, day ≤ 31, … (C01). -/
+theorem numeric_ok_calendar (y : Int) (o : Nat) (hy : MIN_YEAR ≤ y ∧ y ≤ MAX_YEAR) (ho : 1 ≤ o ∧ o ≤ yearLen y)
+    (t : Option Time) (off : Option Int) (tt : Time) (oo : Int) (pad : Pad) (n : Numeric)
+    (hn : n ∈ [Numeric.year, .yearDiv100, .yearMod100, .quarter, .month, .day, .numDaysFromSun,
+               .weekdayFromMon, .ordinal])
+    (_hy0 : n = .yearMod100 → 0 ≤ y) :
+    format_numeric (some (dateOfYo y o)) t off n pad = wok (renderNumeric n pad y o tt oo) :=
+  FormatL.numeric_calendar y o hy ho t off tt oo pad n hn
+
+/-- `NaiveDate::weeks_from`: the number of `day`-weekdays among the days 1..o of the year (so week 0
+is the days before the first one) -/
+theorem weeks_from_spec (y : Int) (o : Nat) (hy : MIN_YEAR ≤ y ∧ y ≤ MAX_YEAR) (ho : 1 ≤ o ∧ o ≤ yearLen y)
+    (day : Weekday) : weeks_from (dateOfYo y o) day = (countStarts y o day.toNat : Int) :=
+  FormatL.weeks_from_closed y o hy ho day
+
+/-- `%U %W` -/
+theorem numeric_ok_weeks (y : Int) (o : Nat) (hy : MIN_YEAR ≤ y ∧ y ≤ MAX_YEAR) (ho : 1 ≤ o ∧ o ≤ yearLen y)
+    (t : Option Time) (off : Option Int) (tt : Time) (oo : Int) (pad : Pad) (n : Numeric)
+    (hn : n ∈ [Numeric.weekFromSun, .weekFromMon]) :
+    format_numeric (some (dateOfYo y o)) t off n pad = wok (renderNumeric n pad y o tt oo) :=
+  FormatL.numeric_weeks y o hy ho t off tt oo pad n hn
+
+/-- `NaiveDate::iso_week` (flag-bit arithmetic on the packed word) is the ISO 8601 week date: the
+year and the week number of the Thursday of the date's Monday-based week; never panics -/
+theorem iso_week_spec (y : Int) (o : Nat) (hy : MIN_YEAR ≤ y ∧ y ≤ MAX_YEAR) (ho : 1 ≤ o ∧ o ≤ yearLen y) :
+    ∃ ywf, (dateOfYo y o).iso_week = .ok ywf ∧ IsoWeek.year ywf = isoYear y o ∧
+      IsoWeek.week ywf = isoWeek y o :=
+  FormatIsoL.iso_week_spec y o hy ho
+
+/-- `%G %g %V` (and the ISO century item): `%g` for ISO years ≥ 0 -/
+theorem numeric_ok_iso (y : Int) (o : Nat) (hy : MIN_YEAR ≤ y ∧ y ≤ MAX_YEAR) (ho : 1 ≤ o ∧ o ≤ yearLen y)
+    (t : Option Time) (off : Option Int) (tt : Time) (oo : Int) (pad : Pad) (n : Numeric)
+    (hn : n ∈ [Numeric.isoYear, .isoYearDiv100, .isoYearMod100, .isoWeek])
+    (_hy0 : n = .isoYearMod100 → 0 ≤ isoYear y o) :
+    format_numeric (some (dateOfYo y o)) t off n pad = wok (renderNumeric n pad y o tt oo) :=
+  FormatIsoL.numeric_iso y o hy ho t off tt oo pad n hn
+
+/-- `%H %k %I %l %M %S %f`: 12-hour clock 12,1,…,11; second 60 for a leap second; nanoseconds since
+the last whole second -/
+theorem numeric_ok_clock (t : Time) (ht : TValid t) (d : Option Date) (off : Option Int) (y : Int) (o : Nat)
+    (oo : Int) (pad : Pad) (n : Numeric) (hn : n ∈ [Numeric.hour, .hour12, .minute, .second, .nanosecond]) :
+    format_numeric d (some t) off n pad = wok (renderNumeric n pad y o t oo) :=
+  FormatL.numeric_clock t ht d off y o oo pad n hn
+
+/-- `%s`: seconds since 1970-01-01T00:00 UTC of the local date and time at the given offset (UTC if
+the value has no offset); no intermediate `i64` overflow -/
+theorem numeric_ok_timestamp (y : Int) (o : Nat) (hy : MIN_YEAR ≤ y ∧ y ≤ MAX_YEAR) (ho : 1 ≤ o ∧ o ≤ yearLen y)
+    (t : Time) (ht : TValid t) (off : Option Int) (hoff : ∀ v, off = some v → -86400 < v ∧ v < 86400) (pad : Pad) :
+    format_numeric (some (dateOfYo y o)) (some t) off .timestamp pad =
+      wok (renderNumeric .timestamp pad y o t (off.getD 0)) :=
+  FormatL.numeric_timestamp y o hy ho t ht off hoff pad
+
+/-- **every numeric item, every padding, every value**: a zone-aware date-time (any date of the
+range, any time incl. leap seconds, any offset) formatted with any of the 21 numeric items and any
+padding modifier gives exactly the documented text (`%y`/`%g` stated for years ≥ 0 as in the
+property) — the five families above in one statement -/
+theorem numeric_ok (y : Int) (o : Nat) (hy : MIN_YEAR ≤ y ∧ y ≤ MAX_YEAR) (ho : 1 ≤ o ∧ o ≤ yearLen y)
+    (t : Time) (ht : TValid t) (off : Option Int) (hoff : ∀ v, off = some v → -86400 < v ∧ v < 86400)
+    (n : Numeric) (pad : Pad) (_h1 : n = .yearMod100 → 0 ≤ y) (_h2 : n = .isoYearMod100 → 0 ≤ isoYear y o) :
+    format_numeric (some (dateOfYo y o)) (some t) off n pad = wok (renderNumeric n pad y o t (off.getD 0)) := by
+  cases n
+  case timestamp => exact FormatL.numeric_timestamp y o hy ho t ht off hoff pad
+  case hour => exact FormatL.numeric_clock t ht _ off y o _ pad _ (by decide)
+  case hour12 => exact FormatL.numeric_clock t ht _ off y o _ pad _ (by decide)
+  case minute => exact FormatL.numeric_clock t ht _ off y o _ pad _ (by decide)
+  case second => exact FormatL.numeric_clock t ht _ off y o _ pad _ (by decide)
+  case nanosecond => exact FormatL.numeric_clock t ht _ off y o _ pad _ (by decide)
+  case weekFromSun => exact FormatL.numeric_weeks y o hy ho _ off t _ pad _ (by decide)
+  case weekFromMon => exact FormatL.numeric_weeks y o hy ho _ off t _ pad _ (by decide)
+  case isoYear => exact FormatIsoL.numeric_iso y o hy ho _ off t _ pad _ (by decide)
+  case isoYearDiv100 => exact FormatIsoL.numeric_iso y o hy ho _ off t _ pad _ (by decide)
+  case isoYearMod100 => exact FormatIsoL.numeric_iso y o hy ho _ off t _ pad _ (by decide)
+  case isoWeek => exact FormatIsoL.numeric_iso y o hy ho _ off t _ pad _ (by decide)
+  all_goals exact FormatL.numeric_calendar y o hy ho _ off t _ pad _ (by decide)
+
+/-! ### fixed specifiers -/
+
+/-- `%b %h %B %a %A`, `%P %p`, `%.f %.3f %.6f %.9f %3f %6f %9f` -/
+theorem fixed_ok :
+    (∀ (y : Int) (o : Nat), MIN_YEAR ≤ y ∧ y ≤ MAX_YEAR → 1 ≤ o ∧ o ≤ yearLen y →
+      ∀ (t : Option Time) (off : Option (List Nat × Int)) (tt : Time) (oo : Int) (f : Fixed),
+      f ∈ [Fixed.shortMonthName, .longMonthName, .shortWeekdayName, .longWeekdayName] →
+      some (format_fixed (some (dateOfYo y o)) t off f) = (renderFixed f y o tt oo).map wok) ∧
+    (∀ (t : Time), TValid t → ∀ (d : Option Date) (off : Option (List Nat × Int)) (y : Int) (o : Nat) (oo : Int)
+      (f : Fixed),
+      f ∈ [Fixed.lowerAmPm, .upperAmPm, .nanosecond, .nanosecond3, .nanosecond6, .nanosecond9,
+           .nanosecond3NoDot, .nanosecond6NoDot, .nanosecond9NoDot] →
+      some (format_fixed d (some t) off f) = (renderFixed f y o t oo).map wok) :=
+  ⟨fun y o hy ho t off tt oo f hf => FormatL.fixed_names y o hy ho t off tt oo f hf,
+   fun t ht d off y o oo f hf => FormatL.fixed_clock t ht d off y o oo f hf⟩
+
+/-- `%z %:z %::z %:::z` (and the `Z`-for-zero variants used by RFC 3339 output) for every offset a
+`FixedOffset` can hold, including offsets with seconds: `%z`/`%:z` round to the nearest minute (ties
+away from zero), `%::z` shows the seconds, `%:::z` truncates to the hour -/
+theorem offset_ok (off : Int) (h : -86400 < off ∧ off < 86400) (d : Option Date) (t : Option Time) (name : List Nat)
+    (y : Int) (o : Nat) (tt : Time) (f : Fixed)
+    (hf : f ∈ [Fixed.timezoneOffset, .timezoneOffsetColon, .timezoneOffsetDoubleColon, .timezoneOffsetTripleColon,
+               .timezoneOffsetZ, .timezoneOffsetColonZ]) :
+    some (format_fixed d t (some (name, off)) f) = (renderFixed f y o tt off).map wok :=
+  FormatL.offset_ok off h d t name y o tt f hf
+
+/-- `%Z` prints the zone's name as given -/
+theorem zone_name_ok (d : Option Date) (t : Option Time) (name : List Nat) (off : Int) :
+    format_fixed d t (some (name, off)) .timezoneName = wok name := by
+  cases d <;> cases t <;> rfl
+
+/-! ### composite specifiers, literals, failure -/
+
+/-- every composite specifier yields the same items as its documented expansion, hence the same
+text (or the same failure) for every value -/
+theorem composite_eq_expansion :
+    (∀ e ∈ expansions, items (str e.1) = items (str e.2)) ∧
+    (∀ e ∈ expansions, ∀ d t off, formatItems d t off (items (str e.1)) = formatItems d t off (items (str e.2))) := by
+  have h : ∀ e ∈ expansions, items (str e.1) = items (str e.2) := by decide
+  exact ⟨h, fun e he d t off => by rw [h e he]⟩
+
+/-- `%t %n %%` are a tab, a newline and a percent sign -/
+theorem special_specifiers (d : Option Date) (t : Option Time) (off : Option (List Nat × Int)) :
+    formatItems d t off (items [37, 116]) = some [9] ∧ formatItems d t off (items [37, 110]) = some [10] ∧
+    formatItems d t off (items [37, 37]) = some [37] := by
+  refine ⟨?_, ?_, ?_⟩ <;> rfl
+
+/-- literal text (anything without `%`: any Unicode, any white space) is copied unchanged, in strict
+and in lenient mode, whatever the value is -/
+theorem literal_copied (s : List Nat) (hs : ∀ b ∈ s, b ≠ 37) (d : Option Date) (t : Option Time)
+    (off : Option (List Nat × Int)) :
+    formatItems d t off (items s) = some s ∧ formatItems d t off (itemsLenient s) = some s := by
+  unfold formatItems items itemsLenient
+  rw [FormatL.literal_copied_aux false d t off _ s (by omega) hs,
+    FormatL.literal_copied_aux true d t off _ s (by omega) hs]
+  exact ⟨rfl, rfl⟩
+
+/-- an unknown specifier or a field the value does not have makes formatting fail:
+(1) a letter without an arm (and a bare modifier) is `Item::Error` in strict mode;
+(2) a list containing `Item::Error` is never formatted;
+(3) date specifiers fail without a date, clock specifiers without a time, offset specifiers without
+an offset, `%s`/`%+` without any of the views they need -/
+theorem unknown_or_missing_fails :
+    (∀ c < 256, specTable c = none → c ≠ 122 → items [37, c] = [Item.error]) ∧
+    (∀ d t off (is : List Item), Item.error ∈ is → formatItems d t off is = none) ∧
+    (∀ t off n pad, n ∉ [Numeric.hour, .hour12, .minute, .second, .nanosecond] →
+      format_numeric none t off n pad = werr) ∧
+    (∀ d off n pad, n ∈ [Numeric.hour, .hour12, .minute, .second, .nanosecond, .timestamp] →
+      format_numeric d none off n pad = werr) ∧
+    (∀ t off f, f ∈ [Fixed.shortMonthName, .longMonthName, .shortWeekdayName, .longWeekdayName, .rfc2822, .rfc3339] →
+      format_fixed none t off f = werr) ∧
+    (∀ d off f, f ∈ [Fixed.lowerAmPm, .upperAmPm, .nanosecond, .nanosecond3, .nanosecond6, .nanosecond9,
+        .nanosecond3NoDot, .nanosecond6NoDot, .nanosecond9NoDot, .rfc2822, .rfc3339] →
+      format_fixed d none off f = werr) ∧
+    (∀ d t f, f ∈ [Fixed.timezoneName, .timezoneOffset, .timezoneOffsetColon, .timezoneOffsetDoubleColon,
+        .timezoneOffsetTripleColon, .timezoneOffsetZ, .timezoneOffsetColonZ, .rfc2822, .rfc3339] →
+      format_fixed d t none f = werr) ∧
+    (∀ d t off, format_fixed d t off .timezoneOffsetPermissive = werr) := by
+  refine ⟨by decide +kernel, fun d t off is h => FormatL.formatItems_error d t off is h, ?_, ?_, ?_, ?_, ?_, ?_⟩
+  · intro t off n pad hn
+    cases n <;> first | rfl | (exfalso; apply hn; decide)
+  · intro d off n pad hn
+    cases d <;> cases n <;> first | rfl | (exfalso; revert hn; decide)
+  · intro t off f hf
+    cases f <;> first | rfl | (exfalso; revert hf; decide)
+  · intro d off f hf
+    cases d <;> cases f <;> first | rfl | (exfalso; revert hf; decide)
+  · intro d t f hf
+    cases d <;> cases t <;> cases f <;> first | rfl | (exfalso; revert hf; decide)
+  · intro d t off
+    cases d <;> cases t <;> cases off <;> rfl
+
+/-! ### the item iterator ends (also used by C15) -/
+
+/-- for every format byte string, strict or lenient: each `parse_next_item` call consumes at least
+one byte and queues at most 12 items; so the fuel `byte length + 1` of `items` is never exhausted
+(more fuel changes nothing), there are at most 13·len items (`%c` = 13 items from 2 bytes), and the
+real iterator (`next` on remainder + queue) yields exactly these items and then ends within
+13·len + 1 calls -/
+theorem strftime_terminates (l : Bool) (s : List Nat) :
+    (∀ r, parse_next_item l s = some r → r.1.length < s.length ∧ r.2.2.length ≤ 12) ∧
+    (∀ k, itemsAux l (s.length + 1 + k) s = itemsAux l (s.length + 1) s) ∧
+    (itemsAux l (s.length + 1) s).length ≤ 13 * s.length ∧
+    (∀ n, 13 * s.length < n → drain l n ⟨s, []⟩ = itemsAux l (s.length + 1) s) := by
+  refine ⟨fun r h => StrftimeL.parse_next_item_progress l s r h,
+    fun k => StrftimeL.itemsAux_fuel l _ _ s (by omega) (by omega),
+    StrftimeL.itemsAux_length l _ s, fun n hn => ?_⟩
+  have := StrftimeL.drain_eq l n ⟨s, []⟩ (by simpa using hn)
+  simpa using this
+
+/-- the error path ends the iteration: in strict mode an unknown specifier yields `Item::Error` and
+nothing after it (finding #3 repaired), in lenient mode the text is kept as literals -/
+example : items (str "%Y%Qabc %d") = [.numeric .year .zero, .error] ∧
+    itemsLenient (str "%Y%Qabc %d") = [.numeric .year .zero, .literal (str "%"), .literal (str "Qabc"),
+      .space (str " "), .numeric .day .zero] ∧
+    drain false 200 ⟨str "%c", []⟩ = items (str "%c") ∧ (items (str "%c")).length = 13 := by decide +kernel
+
+/-! ### non-vacuity -/
+
+/-- 2001-07-08 (a Sunday, day 189) 00:34:60.026490 +09:30, the example row of the documentation -/
+example :
+    let d := dateOfYo 2001 189
+    let t : Time := ⟨2099, 1026490000⟩
+    let off : Option (List Nat × Int) := some (fixedOffsetName 34200, 34200)
+    (MIN_YEAR ≤ 2001 ∧ (2001 : Int) ≤ MAX_YEAR) ∧ (1 ≤ 189 ∧ 189 ≤ yearLen 2001) ∧ TValid t ∧
+    formatItems (some d) (some t) off (items (str "%Y-%m-%d %U %W %j %a %b %e %I:%M:%S%.f %p %z %:::z %s %%"))
+      = some (str "2001-07-08 27 27 189 Sun Jul  8 12:34:60.026490 AM +0930 +09 994518299 %") ∧
+    renderNumeric .weekFromSun .zero 2001 189 t 0 = str "27" ∧
+    renderFixed .timezoneOffset 2001 189 t (-86370) = some (str "-2400") ∧
+    formatItems (some (dateOfYo (-99) 1)) none none (items (str "%Y %C %-C %_m")) = some (str "-0099 -1 -1  1") ∧
+    formatItems (some d) none none (items (str "%H")) = none ∧
+    formatItems (some d) (some t) off (items (str "%Q")) = none ∧
+    items (str "%-D") = [Item.error, .literal [47], .numeric .day .zero, .literal [47], .numeric .yearMod100 .zero] := by
+  decide +kernel
 
 end Chrono.Props.C12
